@@ -402,14 +402,9 @@ def n_list(room, blk, cap, thorough):
     return sorted(x for x in s if 0 <= x <= cap)
 
 
-def fills_for(blk, lenb, thorough, every):
-    """buffer fill levels: all of them, or (quick tier of the wide-block functions) those around the
-    word / padding / block boundaries plus every 8th"""
-    if thorough or every:
-        return list(range(blk))
-    s = {0, 1, 2, 7, 8, 9, blk - lenb - 2, blk - lenb - 1, blk - lenb, blk - lenb + 1, blk - 2, blk - 1}
-    s |= set(range(0, blk, 8))
-    return sorted(x for x in s if 0 <= x < blk)
+def fills_for(blk):
+    """buffer fill levels / block positions: every one (a run costs milliseconds)"""
+    return list(range(blk))
 
 
 def chunks(xs, k):
@@ -433,13 +428,13 @@ def groups_for(tag, tier):
         lenb = w // 4
         dom = "counter = %d*q + fill for every q with counter < 2^%d (the standard's domain: < 2^%d message bits)" % (
             blk, 61 if w == 32 else 125, 64 if w == 32 else 128)
-        fu = fills_for(blk, lenb, thorough, w == 32)
+        fu = fills_for(blk)
         for part in chunks(fu, 16):
             G.append(("step:%s.update[fill=%s]" % (tag, rng_txt(part)),
                       "%s; fill levels %s; input lengths relative to the free room r: 0,1,r-1,r,r+1,r+block,r+block+1%s; %s and input byte"
                       % (dom, ",".join(map(str, part)), " (+6 more)" if thorough else "", every_txt),
                       "update from an arbitrary context == FIPS 180-4 chaining over pending||input: chaining value, pending bytes, "
-                      "counter + n (mod 2^%d); compression uninterpreted" % (4 * w),
+                      "counter + n (mod 2^%d); compression uninterpreted" % (2 * w),
                       [Case(tag, "update", "drv_%s_st_upd" % tag, fill=f, n=n) for f in part
                        for n in n_list(blk - f, blk, cap, thorough)]))
         for part in chunks(list(range(blk)), 32):
@@ -481,7 +476,7 @@ def groups_for(tag, tier):
                   [Case(tag, "keyed_final_reset", "drv_blake2s_st_kfinr", fill=cl, ol=32, kl=kl) for cl in some for kl in kls]))
         return G
     rate, suffix, dl = H.SHA3[tag]
-    ptrs = fills_for(rate, 0, thorough, False)
+    ptrs = fills_for(rate)
     dom = "every Keccak state (25 lanes symbolic)"
     if tag in SHA3_TY:
         for part in chunks(ptrs, 12):
@@ -587,37 +582,34 @@ def counter_of(c, args):
     return args.get("ctr")
 
 
-def reachable_witness(built, c, args, budget=60):
-    """Independent second confirmation where feasible: a REAL message (zero bytes, streamed natively
-    into a fresh context in 64 KiB pieces) whose length brings the counter to the smallest boundary at or
-    above which the failing case lies, against hashlib fed the same stream.  Only for SHA-2 / BLAKE2s and
-    total lengths up to 2^32+2^16 bytes; returns a dict or None."""
+def reachable_witness(built, c, args, budget=45):
+    """Independent second confirmation where feasible: a REAL message (zero bytes streamed natively
+    into a fresh context in 64 KiB pieces, then the case's n input bytes) that brings a fresh context
+    to a counter with the same low 30 / 32 / 33 bits as the failing one, against hashlib fed the same
+    stream.  Only SHA-2 / BLAKE2s, totals up to 2^32+2^20 bytes, within a time budget; dict or None."""
     tag = c.tag
-    if tag not in H.SHA2 and tag != "blake2s":
-        return None
-    if c.kind not in ("final", "update"):
+    if (tag not in H.SHA2 and tag != "blake2s") or c.kind not in ("final", "update"):
         return None
     ctr = counter_of(c, args)
-    blk = blk_of(tag)
-    fill = ctr % blk
+    cap = (1 << 32) + (1 << 20)
+    totals = sorted(set(t for t in [ctr] + [ctr & T.mask(k) for k in (30, 32, 33)] if (1 << 20) <= t <= cap))
+    n = args.get("n", 0) if c.kind == "update" else 0
+    tail = [(7 * i + 1) & 255 for i in range(n)]
+    msg = tail + [0] * (nmsg(tag) - n)
     t0 = time.time()
-    for base in (1 << 29, 1 << 32):
-        total = base + fill
-        if ctr < base or time.time() - t0 > budget:
-            continue
-        n = args.get("n", 0) if c.kind == "update" else 0
-        tail = [(7 * i + 1) & 255 for i in range(n)]
-        msg = tail + [0] * (nmsg(tag) - n)
+    for total in totals:
+        if time.time() - t0 > (budget if total <= (1 << 30) else budget / 3):
+            break
         if tag == "blake2s":
             ol = args["ol"] if 1 <= args["ol"] <= 32 else 32
             nat = built.native("drv_blake2s_st_stream", {"total": total, "ol": ol, "msg": msg, "n": n})["out"][:ol]
             hl = hashlib.blake2s(digest_size=ol)
         else:
-            nat = built.native("drv_%s_st_stream" % tag, {"total": total, "msg": msg, "n": n})["out"]
             try:
                 hl = hashlib.new(H.HASHLIB[tag])
             except ValueError:
                 return None
+            nat = built.native("drv_%s_st_stream" % tag, {"total": total, "msg": msg, "n": n})["out"]
         z = bytes(1 << 20)
         left = total
         while left:
@@ -634,7 +626,7 @@ def reachable_witness(built, c, args, budget=60):
 
 # ------------------------------------------------------------------ deciding one case
 
-def decide_case(ctx, c, timeout, validate=True):
+def decide_case(ctx, c, timeout, validate=True, witness=True):
     """dict(verdict=ok|viol|unknown, how, detail, secs, hooked)"""
     from . import C17
     t0 = time.time()
@@ -659,6 +651,13 @@ def decide_case(ctx, c, timeout, validate=True):
         return dict(verdict="unknown", how="exec", detail="executor reached a panic path (%s) that the native run does not take" % e,
                     secs=time.time() - t0, hooked=set())
     except ExecError as e:
+        # e.g. control flow that depends on the symbolic part of the counter (never on the unchanged
+        # tree): not decidable by this executor; hunt natively over boundary contexts before giving up
+        for it in range(24):
+            ok, det = native_check(built, c, a, sample_env(c, vs, r, it))
+            if not ok:
+                det["found_by"] = "boundary replay after executor stop (%s)" % str(e)[:120]
+                return dict(verdict="viol", how="replay", detail=det, secs=time.time() - t0, hooked=set())
         return dict(verdict="unknown", how="exec", detail="executor: %s" % str(e)[:300], secs=time.time() - t0, hooked=set())
     exp = expected(c, a, uf=True)
     pairs = []
@@ -705,7 +704,7 @@ def decide_case(ctx, c, timeout, validate=True):
         if not ok:
             det["found_by"] = how
             try:
-                rw = reachable_witness(built, c, concrete_args(a, env))
+                rw = reachable_witness(built, c, concrete_args(a, env)) if witness else None
             except Exception as e:      # the second confirmation is optional
                 rw = {"error": str(e)[:200]}
             if rw:
@@ -726,7 +725,7 @@ def decide_group(ctx, name, bounds, claim, cases, timeout, validate_every=1):
     hooked = set()
     unknown, viol = [], None
     for i, c in enumerate(cases):
-        r = decide_case(ctx, c, timeout, validate=(i % validate_every == 0))
+        r = decide_case(ctx, c, timeout, validate=(i % validate_every == 0), witness=(viol is None))
         hooked |= r.get("hooked", set())
         solver_s += r.get("solver_s", 0.0)
         if r["verdict"] == "ok":
